@@ -497,6 +497,14 @@ def simulation(rng, w, idx):
         t.append(f"SOLUTION_MODIFY {a}\n -totals\n  Na {g(rng, -3, -1)}\n  Cl {g(rng, -3, -1)}\n")
         t.append(f"RUN_CELLS\n -cells {a}\n")
         w.count("SOLUTION_MODIFY")
+    if rng.random() < 0.12:
+        # the input's own DUMP requests, in any simulation: one-shot, the dump string keeps the most recent one (with
+        # -append true all of them) through the following simulations and calls
+        what = rng.choice([" -all", " -solution " + (str(pick(rng, w.sol)) if w.sol else "1"),
+                           " -solution 1-9\n -equilibrium_phases 1-9", " -exchange 1-9\n -kinetics 1-9"])
+        app = rng.choice(["", "", " -append true\n", " -append false\n"])
+        t.append("DUMP\n" + app + what + "\n")
+        w.count("DUMP_own" + ("_append" if "true" in app else ""))
     return "".join(t)
 
 
